@@ -687,12 +687,13 @@ func spec_namesSp(l *LALR1, set []int, n int) string { panic("spec") }
 //@ def redOf(l *LALR1, t Transistor, s int, i int) = doneItem(l, s, i) && t.q == s && t.sym_or_rule&CheckMask != 0 && int(t.sym_or_rule&Mask) == l.G.LR0.LR0Closure[s].Items[i].RuleIndex
 //@ def entryOK(l *LALR1, t Transistor) = (t.sym_or_rule&CheckMask == 0 && (exists k int :: edgeOf(l, t, t.q, k))) || (t.sym_or_rule&CheckMask != 0 && (exists i int :: redOf(l, t, t.q, i)))
 
+// (also C09: the transitions every later stage and the emitted tables are built from are exactly the transitions of the LR(0) collection - none lost)
 //@ func (*LALR1).BuildTrans
-//@ props C01 C02 C03
+//@ props C01 C02 C03 C09
 //@ requires lr0Shape(lalr) && len(lalr.trans) == 0
-//@ ensures [C01,C02,C03] forall n int :: 0 <= n && n < len(lalr.trans) ==> lalr.trans[n].Index == n && entryOK(lalr, lalr.trans[n])
-//@ ensures [C01,C02,C03] forall s, k int :: {lalr.G.LR0.LR0Closure[s].GoTo[k]} 0 <= s && s < len(lalr.G.LR0.LR0Closure) && 0 <= k && k < len(lalr.G.LR0.LR0Closure[s].GoTo) ==> (exists n int :: 0 <= n && n < len(lalr.trans) && edgeOf(lalr, lalr.trans[n], s, k))
-//@ ensures [C01,C02,C03] forall s, i int :: {lalr.G.LR0.LR0Closure[s].Items[i]} doneItem(lalr, s, i) ==> (exists n int :: 0 <= n && n < len(lalr.trans) && redOf(lalr, lalr.trans[n], s, i))
+//@ ensures [C01,C02,C03,C09] forall n int :: 0 <= n && n < len(lalr.trans) ==> lalr.trans[n].Index == n && entryOK(lalr, lalr.trans[n])
+//@ ensures [C01,C02,C03,C09] forall s, k int :: {lalr.G.LR0.LR0Closure[s].GoTo[k]} 0 <= s && s < len(lalr.G.LR0.LR0Closure) && 0 <= k && k < len(lalr.G.LR0.LR0Closure[s].GoTo) ==> (exists n int :: 0 <= n && n < len(lalr.trans) && edgeOf(lalr, lalr.trans[n], s, k))
+//@ ensures [C01,C02,C03,C09] forall s, i int :: {lalr.G.LR0.LR0Closure[s].Items[i]} doneItem(lalr, s, i) ==> (exists n int :: 0 <= n && n < len(lalr.trans) && redOf(lalr, lalr.trans[n], s, i))
 //@ modifies lalr.trans
 //@ loop 0: invariant forall n int :: 0 <= n && n < len(lalr.trans) ==> entryOK(lalr, lalr.trans[n])
 //@ loop 0: invariant forall s, k int :: {lalr.G.LR0.LR0Closure[s].GoTo[k]} 0 <= s && s < idx0 && 0 <= k && k < len(lalr.G.LR0.LR0Closure[s].GoTo) ==> (exists n int :: 0 <= n && n < len(lalr.trans) && edgeOf(lalr, lalr.trans[n], s, k))
